@@ -126,7 +126,10 @@ def gen_type(rng, u, depth, hashable=False, key=False):
     if k == "map":
         return ("map", gen_type(rng, u, 0, key=True), gen_type(rng, u, depth - 1))
     if k == "obj":
-        return ("obj", rng.randrange(ncls))
+        t = ("obj", rng.randrange(ncls))
+        if rng.random() < 0.25:
+            t = ("con", gen_constraints(rng, "dict") or {"max_props": 2}, t)
+        return t
     if k == "con":
         t = gen_type(rng, u, depth - 1, hashable=hashable)
         b = base_kind(t)
@@ -176,16 +179,21 @@ def gen_universe(rng, ncls=None):
         names = FIELD_NAMES[:nf]
         fields = []
         used_alias = set()
+        simple = rng.random() < 0.3     # only check-only, un-aliased fields: the SimpleObjectMethod fast path
         for nm in names:
             required = rng.random() < 0.5
             # references to classes (recursion included) only below Optional / list or with a default
-            t = gen_type(rng, u, rng.choice([0, 1, 1, 2]))
+            if simple:
+                t = rng.choice([("int",), ("str",), ("bool",), ("none",), ("union", [("int",), NONE]),
+                                ("coll", "list", ("int",)), ("union", [("str",), ("int",)])])
+            else:
+                t = gen_type(rng, u, rng.choice([0, 1, 1, 2]))
             t = guard_recursion(t)
             f = {"name": nm, "alias": nm, "ty": t, "required": required, "default": gen_default(rng),
                  "fallback": False, "con": None}
             if kind == "namedtuple" and not required and f["default"][0] == "emptylist":
                 f["default"] = ("none",)
-            if rng.random() < 0.3:
+            if rng.random() < 0.3 and not simple:
                 al = rng.choice(ALIASES)
                 if al not in used_alias and al not in names:
                     f["alias"] = al
@@ -291,6 +299,45 @@ def gen_valid(rng, u, t, depth, opts):
             out["extra"] = 1
         return out
     raise AssertionError(t)
+
+
+def invalid_for(rng, t):
+    """a datum of a JSON class the type cannot accept (best effort)"""
+    k = t[0]
+    pool = {"none": [1, "a"], "bool": [1, None, "true"], "int": ["1", 1.5, None, True], "float": ["1.5", None, True],
+            "str": [1, None, []], "coll": [{}, 1, "a"], "tuple": [{}, 1], "map": [[], 1], "obj": [[], 1, "a"],
+            "lit": ["zz", 99, [], 1.5], "enum": ["zz", 99, {}], "any": [Other("object")]}
+    if k == "con":
+        return invalid_for(rng, t[2])
+    if k == "union":
+        return rng.choice([Other("tuple"), {"zz": 1}, [[]]])
+    return rng.choice(pool.get(k, [Other("object")]))
+
+
+def object_matrix(rng, u, cid, opts, limit=40):
+    """data for class cid where every field is independently absent / valid / invalid, plus an optional extra key"""
+    import itertools
+    c = u["classes"][cid]
+    al = opts["alias_fn"]
+    fs = c["fields"]
+    combos = list(itertools.product("avi", repeat=len(fs)))
+    if len(combos) > limit:
+        combos = rng.sample(combos, limit)
+    out = []
+    for combo in combos:
+        d = {}
+        for f, st in zip(fs, combo):
+            if st == "v":
+                d[al(f["alias"])] = gen_valid(rng, u, f["ty"], 2, opts)
+            elif st == "i":
+                d[al(f["alias"])] = invalid_for(rng, f["ty"])
+        r = rng.random()
+        if r < 0.15:
+            d["extra"] = 1
+        elif r < 0.25 and fs:
+            d[fs[0]["name"] + "_"] = None
+        out.append(d)
+    return out
 
 
 def mutate(rng, d, depth=0):
